@@ -48,6 +48,10 @@ extern "C" int LLVMFuzzerTestOneInput(const uint8_t* data, size_t size) {
         if (pat[i] == ')' && (pat[i + 1] == '*' || pat[i + 1] == '+' || pat[i + 1] == '{')) {
             for (size_t j = 0; j < i; j++) if (pat[j] == '*' || pat[j] == '+' || pat[j] == '?' || pat[j] == '{') return 0;
         }
+    // known finding C01-regex-counted-quantifier-unrolling: {n,m} is compiled by unrolling the operand m times (RegularExpression::compileClosure), so
+    // time and memory grow with the NUMBER written in the pattern, not with its length; counts of 4 and more digits are not explored
+    for (size_t i = 0; !noFilter && i < pat.size(); i++)
+        if (pat[i] == '{') { size_t j = i + 1, run = 0, best = 0; while (j < pat.size() && pat[j] != '}') { if (isdigit((unsigned char)pat[j])) { run++; if (run > best) best = run; } else run = 0; j++; } if (best >= 4) return 0; }
     // known finding C01-regex-nongreedy-zero-width-loop: a non-greedy closure (*? +? {n,}?) whose operand can match the empty string (anchor, group,
     // back reference, ...) never leaves RegularExpression::match when what follows fails.  Only non-greedy closures of a plain character, '.',
     // or a character class are explored.
